@@ -64,6 +64,30 @@ def run(ctx, replay_case):
                 ctx.violations.append({"kind": "concrete", "signature": f"valid-rejected:{c.meta['prim']}",
                                        "what": f"valid value {c.meta['value']} of {c.meta['prim']} in {c.meta['field']} is rejected",
                                        "replay": c.replay("S")})
+    # the same rejection whatever the input comes in: messages with an out-of-range value (also in the header: tag, command code)
+    # carried as raw bytes, hex text and the packets of a pcapng capture, decoded strictly as a stream through every front-end, end
+    # like the binary decode of the same bytes (seed C04k: the pcapng front-end dropped packets that do not start with a valid tag)
+    import canon
+    msgs_f = [c for c in faults if c.tname == "Command"]
+    nfront = 0
+    hdr_f = [c for c in msgs_f if c.meta["field"] in (".tag", ".commandCode", ".commandSize")]
+    for c in hdr_f[:12] + rnd.sample(msgs_f, min(len(msgs_f), 40 if ctx.tier == "quick" else 400)):
+        base = canon.impl_events_via("binary", c.data, "Stream")
+        for front, cont in (("hex", c.data.hex().encode()), ("pcapng", canon.make_pcapng([c.data])), ("auto", c.data),
+                            ("auto", canon.make_pcapng([c.data]))):
+            got = canon.impl_events_via(front, cont, "Stream")
+            nfront += 1
+            if got != base:
+                nbad += 1
+                k_ = next((i for i, (x_, y_) in enumerate(zip(got, base)) if x_ != y_), min(len(got), len(base)))
+                ctx.violations.append({"kind": "concrete", "signature": f"front-end:{front}",
+                                       "what": f"out-of-range value {c.meta['value']} in {c.meta['field']}: strict decoding through the {front} front-end "
+                                               f"does not end like the decode of the carried bytes ('{(got[k_] if k_ < len(got) else 'end')[:100]}' vs "
+                                               f"'{(base[k_] if k_ < len(base) else 'end')[:100]}')",
+                                       "replay": {**c.replay("S"), "front_end": front, "container": cont.hex()[:4000]}})
+                break
+        if nbad > 3:
+            break
     prims = collections.Counter(c.meta["prim"] for c in faults)
     ctx.stats.update({
         "evaluations": len(allc), "distinct_nontrivial": len({(c.tname, c.cc, c.data) for c in allc}),
@@ -73,7 +97,7 @@ def run(ctx, replay_case):
                 "must not be rejected at that field",
         "samples": [{**c.replay("S"), "field": c.meta["field"], "value": c.meta["value"]} for c in allc[:: max(1, len(allc) // 5)]][:5],
         "correspondence": {"ops": len(allc)},
-        "distribution": {"kinds": ds.kinds_distribution(allc), "constrained_types_hit": len(prims), "monitor_failures": nbad,
+        "distribution": {"kinds": ds.kinds_distribution(allc), "constrained_types_hit": len(prims), "monitor_failures": nbad, "front_end_decodes": nfront,
                          "outcomes": dict(collections.Counter(ds.outcome(b) for b in impl))},
     })
 
